@@ -17,7 +17,7 @@ EXPLANATION = (
     "decoder/encoder objects are created once in the constructor from codecs.getincremental*(encoding)(codec_errors), "
     "never re-created anywhere in the package, never called with final=True, and no read path uses bytes.decode (D2); "
     "the bytes-mode coder returns its argument (D3); bytes mode selects BytesIO + pass-through coder, text mode "
-    "StringIO + incremental coders (D4). NOT decided: the codecs' own behaviour; interact() is bytes-level by design.")
+    "StringIO + incremental coders (D4); end of stream is decided on the raw bytes, not on decoder output, which is legitimately empty for a chunk that ends inside a character (D5); a memoised codec factory counts as a shared decoder (D2). NOT decided: the codecs' own behaviour; interact() is bytes-level by design.")
 TRUSTED = ["codecs incremental decoders keep an undecoded tail between calls made with final=False", "sa/ engine (label dataflow)"]
 ASSUMPTIONS = ["values returned by super().read_nonblocking are already decoded (that function is analysed itself)"]
 LEVEL_TEXT = ("Static taint analysis: every def-use path from a raw-byte source to a delivery sink crosses the "
